@@ -11,7 +11,7 @@ and once more after other evaluations (batch / history independence), plus the o
 Oracle conventions: Gaussian cost at the MLE floors the variance at 1e-16 (a constant slice costs n*log(2 pi 1e-16)+n);
 the multivariate cost must raise RuntimeError when the slice's sample covariance is not positive definite.
 "Up to prefix-sum rounding" is implemented as: values are compared with common.close (1e-8 relative); column-slices whose
-exact variance is positive but below 1e-9*(1+mean^2) are skipped (ill-conditioned), and for a covariance that is exactly
+exact variance is positive but below 1e-6*(1+mean^2) are skipped (ill-conditioned), and for a covariance that is exactly
 singular without an exactly-constant column, or whose determinant is below 1e-9 * prod(diag), both outcomes are accepted.
 """
 from __future__ import annotations
@@ -22,7 +22,7 @@ from fractions import Fraction
 import numpy as np
 
 from runtime import oracles
-from runtime.common import Recorder, close, jsonable, use_repo
+from runtime.common import TOL, Recorder, close, jsonable, use_repo
 
 RULE = ("all intervals [s,e) with e-s>=min_size of each data matrix, per cost x parameter kind, single + batched; a case is "
         "non-trivial when the expected value is not identically 0 (a one-row optimal L2 cost is trivially 0) or the "
@@ -147,7 +147,7 @@ def expectation(cost, jparam, X, s, e, family):
             var = oracles.rss(x) / n
             msq = (x.mean(axis=0)) ** 2
             exact_const = np.all(x == x[0], axis=0)
-            ill = (~exact_const) & (var < 1e-9 * (1 + msq))
+            ill = (~exact_const) & (var < 1e-6 * (1 + msq))      # log(var) loses about eps * mean^2 / var: 1e-6 keeps that below TOL (seed 3 hit 2.6e-9)
             if family != "grid":                       # a constant slice of inexact data: the prefix sums need not cancel
                 ill |= exact_const
             mask = ~ill
@@ -182,14 +182,18 @@ def call(sc, cuts, dtype=np.int64):
         return None, f"{type(e).__name__}: {e}"[:160]
 
 
-def check_single(rec, cost, kind, jparam, container, X, family, s, e, sc=None):
-    """Evaluate the one interval [s,e) and compare with the definition.  Returns (nontrivial, row or None)."""
+def check_single(rec, cost, kind, jparam, container, X, family, s, e, sc=None, data_dtype=None):
+    """Evaluate the one interval [s,e) and compare with the definition.  Returns (nontrivial, row or None).
+    data_dtype: the (integral) values of X are handed to fit in this integer dtype; the definition is computed from the float64 copy."""
     n, p = X.shape
     mode = "optim" if jparam is None else "fixed"
     inp = {"check": "single", "cost": cost, "kind": kind, "param": jparam, "container": container, "X": X, "family": family,
            "cuts": [[s, e]]}
+    if data_dtype is not None:
+        inp["data_dtype"] = np.dtype(data_dtype).name
+        mode += f":data-{np.dtype(data_dtype).name}"
     if sc is None:
-        sc = make_cost(cost, make_param(cost, jparam, container)).fit(X)
+        sc = make_cost(cost, make_param(cost, jparam, container)).fit(X if data_dtype is None else X.astype(data_dtype))
     want, val, mask = expectation(cost, jparam, X, s, e, family)
     got, err = call(sc, [[s, e]])
     q = p if UNIVARIATE[cost] else 1
@@ -215,13 +219,19 @@ def check_single(rec, cost, kind, jparam, container, X, family, s, e, sc=None):
     if not mask.all():            # skipped (ill-conditioned) column-slices: keep the largest deviation as an observation only
         dev = float(np.max(np.abs(got[0][~mask] - np.asarray(val)[~mask])))
         o = OBS.setdefault("GaussianVarCost optimal: column-slices skipped as ill-conditioned (constant slice of inexact data, or "
-                           "variance < 1e-9*(1+mean^2)); the floored value there depends on prefix-sum rounding",
+                           "variance < 1e-6*(1+mean^2)); the floored value there depends on prefix-sum rounding",
                            {"skipped": 0, "max_abs_deviation": 0.0, "example": None})
         o["skipped"] += 1
         if dev > o["max_abs_deviation"]:
             o["max_abs_deviation"] = dev
             o["example"] = jsonable({"X": X, "interval": [s, e], "evaluate": got[0], "floored_definition": val})
-    if not close(got[0][mask], np.asarray(val)[mask]):
+    ok = close(got[0][mask], np.asarray(val)[mask])
+    if not ok and data_dtype is not None and cost == "L2Cost":
+        # large integral values: the prefix-sum form cancels numbers of the size of the slice's sum of squares (rounding ~1e-16 of it, whereas an
+        # integer wrap-around is off by multiples of 2^16 / 2^32 / 2^64)
+        slack = 1e-12 * (np.sum(X[s:e] ** 2, axis=0) + (e - s) * np.max(np.abs(np.asarray(oracle_param(cost, jparam) if jparam is not None else 0.0))) ** 2)
+        ok = bool(np.all(np.abs(got[0] - np.asarray(val)) <= slack + TOL))
+    if not ok:
         rec.violation(f"{cost}:{mode}:value", f"{cost}({kind}, param={jparam}).evaluate([[{s},{e}]]) = {got[0].tolist()} but the direct "
                       f"computation from X[{s}:{e}] gives {np.asarray(val).tolist()}", "C01.value", inp)
     return bool(np.any(np.abs(np.asarray(val)) > 0)), got[0]
@@ -317,6 +327,26 @@ def run(tier="quick", seed=0, repo="/repo"):
     for label, X, family in datasets(tier, seed):
         run_matrix(rec, rng, label, X, family)
         shapes.add(X.shape)
+    # integral data held in INTEGER dtypes (counts, sensor ticks): the cost of an interval is that of the same numbers as float64 -- squares
+    # and sums of the data must not wrap around in the narrow type (int16 beyond 181, int32 beyond 46340, int64 beyond about 3.04e9)
+    for dt, scale, loc in ((np.int16, 20, 200), (np.int32, 1000, 60000), (np.int64, 1e8, 4e9), (np.int64, 3, 10)):
+        for n, p in ((6, 1), (7, 2)):
+            X = np.round(rng.normal(size=(n, p)) * scale + loc)
+            for cost in ("L2Cost", "GaussianVarCost", "GaussianCovCost"):
+                m = MIN_SIZE[cost](p)
+                for kind, jparam, container in param_specs(cost, p, rng):
+                    try:
+                        sc = make_cost(cost, make_param(cost, jparam, container)).fit(X.astype(dt))
+                    except Exception as e:                                      # noqa: BLE001
+                        rec.violation(f"{cost}:fit-raises:data-{np.dtype(dt).name}", f"{cost}({kind}).fit raised {type(e).__name__} on "
+                                      f"{np.dtype(dt).name} data", "C01.value", {"check": "single", "cost": cost, "kind": kind, "param": jparam,
+                                                                                 "container": container, "X": X, "family": "normal", "cuts": [[0, n]],
+                                                                                 "data_dtype": np.dtype(dt).name})
+                        continue
+                    for s_ in range(n):
+                        for e_ in range(s_ + m, n + 1):
+                            nt, _ = check_single(rec, cost, kind, jparam, container, X, "normal", s_, e_, sc=sc, data_dtype=dt)
+                            rec.case((cost, kind, f"int-data-{np.dtype(dt).name}-{loc}-n{n}p{p}", s_, e_), nt, None)
     nmax = max(s[0] for s in shapes)
     return rec.result(RULE, f"n in 1..{7 if tier == 'quick' else 8} (thorough also one 12x2 and one 20x3 matrix), p in 1..3, "
                             f"{len(shapes)} shapes, every admissible (s,e); 3 costs x 6-7 parameter kinds; "
@@ -343,5 +373,5 @@ def replay(inp, repo="/repo"):
             check_batch(rec, cost, kind, jparam, container, X, family, cuts, singles, "replay", dtype=np.dtype(inp.get("cuts_dtype", "int64")).type)
     else:
         for s, e in cuts:
-            check_single(rec, cost, kind, jparam, container, X, family, s, e)
+            check_single(rec, cost, kind, jparam, container, X, family, s, e, data_dtype=np.dtype(inp["data_dtype"]).type if inp.get("data_dtype") else None)
     return {"violated": bool(rec.violations), "detail": rec.violations[0]["what"] if rec.violations else "holds"}
